@@ -26,22 +26,33 @@ func genJoinTable(r *Rand, maxRows int, cols []string, strCol string) []any {
 		if r.Chance(5) {
 			delete(row, cols[0])
 		}
+		// a nested key column; now and then the parent is a scalar, so that reading the key fails in mid-row
+		row["o"] = map[string]any{"q": Pick(r, nums)}
+		if r.Chance(4) {
+			row["o"] = "scalar"
+		}
 		rows[i] = row
 	}
 	return rows
 }
 
-func genOn(r *Rand, lcols, rcols []string, lstr, rstr string, tags *[]string) *Expr {
+func genOn(r *Rand, la, ra string, lcols, rcols []string, lstr, rstr string, tags *[]string) *Expr {
+	first := true
 	cmp := func(op string) *Expr {
 		var a, b *Expr
 		if r.Chance(35) {
-			a, b = Col("x", lstr), Col("y", rstr)
+			a, b = Col(la, lstr), Col(ra, rstr)
 			if r.Bool() {
-				a, b = Col("x", lstr+"2"), Col("y", rstr+"2")
+				a, b = Col(la, lstr+"2"), Col(ra, rstr+"2")
 			}
+		} else if !first && r.Chance(25) {
+			// a later conjunct on a nested key: when its parent is a scalar the read fails after an earlier key was taken
+			a, b = Col(la, "o", "q"), Col(ra, "o", "q")
+			*tags = append(*tags, "on:nested-key")
 		} else {
-			a, b = Col("x", Pick(r, lcols)), Col("y", Pick(r, rcols))
+			a, b = Col(la, Pick(r, lcols)), Col(ra, Pick(r, rcols))
 		}
+		first = false
 		if r.Bool() {
 			a, b = b, a
 			*tags = append(*tags, "on:flipped")
@@ -95,7 +106,12 @@ func genC04(r *Rand, tier string) []Case {
 			doc["l"] = []any{}
 		}
 		var ontags []string
-		on := genOn(r, lcols, rcols, "ls", "rs", &ontags)
+		failing := false
+		// aliases: mostly unrelated names; sometimes one alias is a proper prefix of the other (either side)
+		al := Pick(r, [][2]string{{"x", "y"}, {"x", "y"}, {"x", "y"}, {"u", "us"}, {"t2", "t"}, {"o", "ol"}, {"yy", "y"}})
+		la, ra := al[0], al[1]
+		ontags = append(ontags, map[bool]string{true: "alias:plain", false: "alias:prefix-of-other"}[la == "x"])
+		on := genOn(r, la, ra, lcols, rcols, "ls", "rs", &ontags)
 		if r.Chance(15) {
 			// two adjacent string key columns whose texts concatenate ambiguously: ("ab","c") vs ("a","bc") vs ("abc","")
 			amb := [][2]string{{"ab", "c"}, {"a", "bc"}, {"abc", ""}, {"", "abc"}, {"ab", "c"}}
@@ -110,8 +126,17 @@ func genC04(r *Rand, tier string) []Case {
 					}
 				}
 			}
-			on = And(Cmp("=", Col("x", "ls"), Col("y", "rs")), Cmp("=", Col("y", "rs2"), Col("x", "ls2")))
+			on = And(Cmp("=", Col(la, "ls"), Col(ra, "rs")), Cmp("=", Col(ra, "rs2"), Col(la, "ls2")))
 			ontags = []string{"on:two-string-keys", "on:equi", "on:="}
+		}
+		if r.Chance(12) && len(doc["l"].([]any)) >= 2 && len(doc["r"].([]any)) >= 1 {
+			// a key read that fails in mid-row (second key column, not the first row); every rendering of it is an
+			// error, and the well-formed joins generated next run in the same process right after these failures
+			rows := doc["l"].([]any)
+			rows[1+r.Intn(len(rows)-1)].(map[string]any)["o"] = "scalar"
+			on = And(Cmp("=", Col(la, "k"), Col(ra, "m")), Cmp("=", Col(la, "o", "q"), Col(ra, "o", "q")))
+			ontags = []string{"on:failing-nested-key", "on:equi", "on:="}
+			failing = true
 		}
 		for _, jt := range []string{"inner", "left", "right"} {
 			for _, st := range strats {
@@ -119,10 +144,19 @@ func genC04(r *Rand, tier string) []Case {
 					continue
 				}
 				from := &From{K: "join", JT: jt, Strat: st,
-					L: &From{K: "table", Path: []string{"l"}, Alias: "x"}, R: &From{K: "table", Path: []string{"r"}, Alias: "y"}, On: on}
+					L: &From{K: "table", Path: []string{"l"}, Alias: la}, R: &From{K: "table", Path: []string{"r"}, Alias: ra}, On: on}
 				q := &Stmt{From: from, Items: []Item{{Star: true}}}
 				tags := append([]string{"type:" + jt, "strategy:" + st}, ontags...)
 				out = append(out, mkCase(doc, q, tags, true))
+				if failing {
+					// state left behind by the failed call must not leak into the next one: a well-formed hash join whose
+					// first left row has a partner runs in the same process straight after every failing rendering
+					cdoc := map[string]any{"l": []any{map[string]any{"rid": 1.0, "k": 1.0, "o": map[string]any{"q": 2.0}}, map[string]any{"rid": 2.0, "k": 2.0, "o": map[string]any{"q": 2.0}}},
+						"r": []any{map[string]any{"rid": 1.0, "m": 1.0, "o": map[string]any{"q": 2.0}}, map[string]any{"rid": 2.0, "m": 2.0, "o": map[string]any{"q": 2.0}}}}
+					cfrom := &From{K: "join", JT: "inner", Strat: Pick(r, []string{"hash", "auto", "parallelhash"}),
+						L: &From{K: "table", Path: []string{"l"}, Alias: la}, R: &From{K: "table", Path: []string{"r"}, Alias: ra}, On: on}
+					out = append(out, mkCase(cdoc, &Stmt{From: cfrom, Items: []Item{{Star: true}}}, []string{"after-failed-join"}, true))
+				}
 			}
 		}
 	}
